@@ -1,5 +1,6 @@
 import LSProofs.Props.C12
 import LSProofs.PrimLemmas
+import LSProofs.TextSpec
 /-!
 # C06 — no size argument, however large, can corrupt a string
 (first layer: the arithmetic guards; the state clauses come from the refinement theorem)
@@ -51,6 +52,29 @@ theorem growth_too_large_refused (rf : Refuse) (hp : Heap) (t : Bytes) (a : Nat)
 /-- the translated growth rule uses saturating arithmetic only -/
 theorem growth_saturates (l a : Nat) : Gen.amortizedGrowth l a ≤ 2 ^ 64 - 1 := by
   simp only [Gen.amortizedGrowth, Gen.satAdd, Gen.satMul]; omega
+
+/-- for **every** `n` (no bound at all), in every well-formed world and every storage state of the
+target — shared heap buffers included — `reserve(n)` either succeeds with its postcondition
+(C11) or fails leaving the target bit-identical, its text and every block unchanged; it never
+raises a model alarm (no wrap-around, no write beyond what was allocated) -/
+theorem reserve_any_size (rf : Refuse) (w : World) (h : Nat) (t : Bytes) (n : Nat) (plain : Bool) (hw : Wf w)
+    (ht : w.text h = some t) :
+    (((step rf w (.reserve h n plain)).2 = .ok .unit ∧ (step rf w (.reserve h n plain)).1.text h = some t) ∨
+     ((step rf w (.reserve h n plain)).2 = failOut plain ∧ SameAs w (step rf w (.reserve h n plain)).1 h)) ∧
+    Wf (step rf w (.reserve h n plain)).1 ∧ (∀ u, (step rf w (.reserve h n plain)).2 ≠ .ub u) := by
+  have hp := step_post rf hw (.reserve h n plain) trivial
+  refine ⟨?_, hp.1, hp.2.1⟩
+  rcases reserve_refines (rf := rf) hw ht n plain with ⟨a, b, _⟩ | c
+  · exact Or.inl ⟨a, b⟩
+  · exact Or.inr c
+
+/-- the same for a size hint: `extend` with any `hint` never corrupts anything -/
+theorem extend_any_hint (rf : Refuse) (w : World) (h hint : Nat) (items : List (Option Bytes)) (hw : Wf w)
+    (hv : ∀ s, some s ∈ items → Valid s) :
+    Wf (step rf w (.extendChars h hint items)).1 ∧ (∀ u, (step rf w (.extendChars h hint items)).2 ≠ .ub u) ∧
+    ∀ h', h' ≠ h → (step rf w (.extendChars h hint items)).1.text h' = w.text h' :=
+  let p := step_post rf hw (.extendChars h hint items) hv
+  ⟨p.1, p.2.1, fun h' hne => (p.2.2 h' hne).2⟩
 
 /-- guards of `TextLen::new`, `Capacity::new`, `StaticBuffer::new` as in the source -/
 theorem guards : Gen.guardTextLenNew = ">" ∧ Gen.guardCapacityNew = ">" ∧ Gen.guardStaticNew = ">" := ⟨rfl, rfl, rfl⟩
